@@ -64,7 +64,7 @@ def thrownOf (input : List String) : List String :=
     | [] => []
   go ts
 
-def alwaysFields : List String := ["sp", "csp", "cg", "ctx", "ld", "rd", "cgs", "qv"]
+def alwaysFields : List String := ["sp", "csp", "cg", "ctx", "ld", "rd", "cgs", "qv", "mn", "sn"]
 def otherFields : List String := ["co", "po", "prog", "ct", "fp", "pc", "fio", "vio"]
 
 def machinePart (probe : String) : String := (splitOnStr probe " side ").headD ""
